@@ -389,7 +389,7 @@ class GriffeLoader:
             if already_present:
                 old_member = obj.get_member(new_member.name)
                 old_lineno = old_member.alias_lineno if old_member.is_alias else old_member.lineno
-                overwrite = alias_lineno > (old_lineno or 0)  # type: ignore[operator]
+                overwrite = (alias_lineno or 0) > (old_lineno or 0)
 
             # 1. If the expanded member is an alias with a target path equal to its own path, we stop.
             #    This situation can arise because of Griffe's mishandling of (abusive) wildcard imports.
